@@ -891,6 +891,8 @@ class HealSparseMap(object):
             Array of values/validity from the map.
         """
         if hasattr(pixels, "__len__") and len(pixels) == 0:
+            if valid_mask:
+                return np.zeros(0, dtype=np.bool_)
             if self._is_wide_mask:
                 return np.zeros((0, self._wide_mask_width), dtype=self.dtype)
             else:
